@@ -32,6 +32,13 @@ Definition ops : list op := [
          vres (fun b2 => VL [VB b2; vres view (Pes.new_pes_header b2)])
               (let? b1 := Pes.put_ts b 9 (zN v1) in Pes.put_ts b1 14 (zN v2))
      | _ => vbad end);
+  (* pes.withpes pkt pts -> packet.WithPES(pkt, pts): (pkt', packet.PESHeader(pkt'), NewPESHeader of packet.Payload(pkt')) *)
+  ("pes.withpes", fun a => match a with
+     | [VB p; VI v] => if N.eqb (len p) 188 then
+         vres (fun p' => VL [VB p'; vres VB (Pes.pkt_pes_header p');
+                             vres view (let? pay := Pes.pkt_payload p' in Pes.new_pes_header pay)])
+              (Pes.with_pes p (zN v)) else vbad
+     | _ => vbad end);
   (* ser.pes id plen flags6 flags7 mode pts dts extra data -> Spec serialiser (modelexec only; used by the generator) *)
   ("ser.pes", fun a => match a with
      | [VI id; VI pl; VI f6; VI f7; VI mode; VI p; VI d; VB ex; VB dat] =>
